@@ -71,6 +71,14 @@ class Conduct(core.Scenario):
                     srv.append(core.Action('WS<-' + ans, lambda s: s.world.ws_push(live_ws(s)[-1], ans),
                                            lambda s: bool(live_ws(s)) and any(f[3] == '2probe' for f in live_ws(s)[-1].sent)))
         self.on_ws = self.mode in ('websocket', 'upgrade_ok')
+        rel = []
+        if p.get('stall') and self.on_ws:
+            # the server stops reading for a while: the client's next write blocks inside the socket, frames keep arriving
+            en_on_ws = lambda s: bool(live_ws(s)) and s.world.client.state == 'connected' and \
+                s.world.client.current_transport == 'websocket'                                    # noqa: E731
+            srv.append(core.Action('WS<-stall', lambda s: setattr(live_ws(s)[-1], 'stall', True), en_on_ws))
+            rel.append(core.Action('WS<-release', lambda s: s.world.ws_release(live_ws(s)[-1]),
+                                   lambda s: bool(live_ws(s)) and live_ws(s)[-1].stall and live_ws(s)[-1].stalled > 0))
         for name in p['pushes']:
             pk = PUSHES[name]
             if self.on_ws:
@@ -95,7 +103,7 @@ class Conduct(core.Scenario):
             def fire(s, i=i):
                 s.send_calls[i] = (s.world.nstep, s.world.call('send', SENDS[i]))
             app.append(core.Action('send#%d' % i, fire, lambda s: s.conn.done and not s.conn.exc))
-        self.scripts = [srv, app, []]
+        self.scripts = [srv, app, [], rel]
 
     def step_check(self):
         # POSTs are acknowledged as they appear
@@ -369,6 +377,11 @@ def param_list(ctx):
             for sq in ([], ['msg']):
                 ps.append({'impl': impl, 'mode': mode, 'pushes': sq, 'nsend': 1, 'piggy': ['4welcome', '2hs']})
                 ps.append({'impl': impl, 'mode': mode, 'pushes': sq, 'nsend': 0, 'piggy': ['4w1', '4w2']})
+        # writes that block inside the socket (the server is not reading) while frames keep arriving
+        for mode in ('websocket', 'upgrade_ok'):
+            for sq in (['msg'], ['ping'], ['pingx', 'msg'], ['burst']):
+                for ns in (1, 2):
+                    ps.append({'impl': impl, 'mode': mode, 'pushes': sq, 'nsend': ns, 'stall': True})
         for mode in ('upgrade_wrong', 'upgrade_silent', 'upgrade_refused'):
             for sq in ([], ['burst'], ['pingx', 'msg']):
                 for ns in (0, 3):
@@ -425,7 +438,7 @@ def run(ctx):
         'evaluations': st.executions + nurl, 'distinct_nontrivial': len(st.outcomes) + nurl,
         'rule': 'server push sequences over %r (length <= %d) x application sends (text, bytes, JSON; 0..4) x mode {polling, websocket, '
                 'upgrade with probe answered correctly / wrongly / not at all / socket refused} x {Client, AsyncClient}; pushes and sends '
-                'are parallel scripts: all interleavings and <= %d deviation(s); every execution ends in server silence. Plus the '
+                'are parallel scripts: all interleavings and <= %d deviation(s); every execution ends in server silence; WebSocket scenarios in which the server stops reading, so that a send of the client blocks inside the socket while frames keep arriving, and later resumes. Plus the '
                 'product of 4 schemes x 3 hosts x 3 paths x 3 queries x 3 endpoint settings x 2 transports (%d URLs per client).'
                 % (list(PUSHES), 2 if ctx.quick else 3, bound, len(cases)),
         'exhaustive': True, 'bound_completed': bound, 'caps_hit': st.caps, 'scenarios': len(params),
